@@ -2,7 +2,7 @@ HOOKS = {
     "guard": "verif",
     "enable": "go build -tags verif (the harness module /verif/harness replaces github.com/benoitkugler/webrender by /repo)",
     "baseline_off_cmd": "bin/baseline_off",
-    "source_commits": ["38cf8a4", "de761b4"],
+    "source_commits": ["38cf8a4", "de761b4", "a8a0f08"],
     "add_only": True,
 }
 ENGINES = [
@@ -16,6 +16,14 @@ NOTES = ("Every check = TLA+ specification under spec/ checked by TLC + conforma
          "known_findings.json lists genuine defects (known / fixed).")
 NOT_APPLICABLE = {}
 CHECKS = {
+    "C02": {
+        "level": "model_checking",
+        "technique": "TLA+ spec Flow.tla (non-deterministic fragmenter; invariant Conserves = every behaviour satisfies the declarative statement Accept) model-checked by TLC; TLC-generated documents laid out and drawn by the real code, the real page token sequences validated as traces by TLC (FlowTrace.tla, PaginationTrace.tla), drawn tokens compared with laid-out tokens on the same run (hook VerifPageBox)",
+        "text": "TLC proves on the model that conservation does not depend on where pages break, generates documents over 14 kinds of items, and "
+                "validates every real page sequence against Accept; each laid-out token must reach DrawText exactly once on its page.",
+        "note": "Unique word tokens, box-tree order per page; crashing documents are left to C01; known findings: table header/footer dropped on tiny pages, "
+                "remainder of a broken float/absolute box lost after the last page, and others listed in known_findings.json.",
+    },
     "C12": {
         "level": "model_checking",
         "technique": "TLA+ spec Pagination.tla (page maker RemakePage/InsertBlank/Finish with the CSS Fragmentation rule-dropping tiers) model-checked by TLC; every document laid out by layout.Layout, geometry/page types/counters compared, and the real page sequences validated as traces by TLC against PaginationTrace.tla",
